@@ -148,8 +148,9 @@ def gradient_factory(name):
             """Return the gradient operator."""
             return sinh(self.domain)
     else:
-        # Fallback to default
-        gradient = Functional.gradient
+        # Fallback to default. `Functional.gradient` is a property, and the
+        # result of this function is wrapped in a property again.
+        gradient = Functional.gradient.fget
 
     return gradient
 
